@@ -725,6 +725,11 @@ for _pid in ('C06', 'C15'):
 # real-thread legs under ASan+UBSan (the TSan twins are C07's stages); thorough tier only
 PROPS['C04']['stages'].append(thr_stage('thr-asan', 'mq', 'asan', tiers=('thorough',)))
 PROPS['C06']['stages'].append(thr_stage('thr-asan', 'fibre', 'asan', tiers=('thorough',)))
+# the same real-thread rounds under the genuine ThreadSanitizer: C04-C06 speak of threads on a multiprocessor, and a
+# weakened memory order is invisible to every sequentially consistent interleaving the E2 stages explore
+PROPS['C04']['stages'].append(thr_stage('thr-tsan', 'mq', 'tsan', nproc=1))
+PROPS['C05']['stages'].append(thr_stage('thr-tsan', 'ring', 'tsan', nproc=1))
+PROPS['C06']['stages'].append(thr_stage('thr-tsan', 'fibre', 'tsan', nproc=1))
 
 
 # C01: order of arrival of interrupt-context requests when the drain loop itself is interrupted (engine E2)
@@ -781,3 +786,13 @@ PROPS['C05']['level_text'] += (' The thorough tier also pushes 2^32+4096 bytes t
 PROPS['C14']['level_text'] += (' The thorough tier repeats 24000 cases under valgrind memcheck on a non-ASan build.')
 PROPS['C07']['level_text'] += (' The same rounds also run over the fallback atomics of include/librfn/atomic.h '
                                '(-D__STDC_NO_ATOMICS__).')
+
+# real-thread TSan legs of C04-C06 (added after seed C04-e-1: a relaxed publishing operation)
+for _pid, _what in (('C04', 'many-sender/one-receiver rounds'), ('C05', 'producer/consumer rounds'), ('C06', 'event and wake-up rounds')):
+    PROPS[_pid]['rule'] += (' thr-tsan (engine E3): the real-thread %s of harness/threads.c under the genuine ThreadSanitizer; '
+                            'every report is a violation.' % _what)
+    PROPS[_pid]['level_text'] += (' A real-thread stage under ThreadSanitizer covers what sequentially consistent '
+                                  'interleavings cannot show: a weakened memory order on a publishing operation.')
+    if 'E3' not in PROPS[_pid]['engine']:
+        PROPS[_pid]['engine'] += '+E3'
+    PROPS[_pid]['technique'] += '; real threads under ThreadSanitizer'
